@@ -137,9 +137,9 @@ theorem unknown_type_in_struct (p : Prog) (errs : List Err) (h : validate p = so
     have h2 := List.flatMap_eq_nil_iff.1 h1 a ha
     exact hu h2
 
-/-- DIRECT RECURSION: a task that calls itself (anywhere in its body) -/
-theorem recursion_direct (p : Prog) (errs : List Err) (h : validate p = some errs) (t : Task)
-    (ht : (mkEnv p).task? t.name = some t) (hm : t ∈ (mkEnv p).tasks) (hc : t.name ∈ calleesL t.body) : errs ≠ [] := by
+/-- DIRECT RECURSION: a task that calls itself (anywhere in its body, also inside Parallel blocks) -/
+theorem recursion_direct (p : Prog) (errs : List Err) (h : validate p = some errs) (t : Task) (c : Call)
+    (hm : t ∈ (mkEnv p).tasks) (hc : c ∈ callsL t.body) (hself : c.name = t.name) : errs ≠ [] := by
   unfold validate at h
   simp only [] at h
   split at h
@@ -150,9 +150,12 @@ theorem recursion_direct (p : Prog) (errs : List Err) (h : validate p = some err
     simp only [List.append_eq_nil_iff] at hnil
     have hrec := hnil.2.2.2.2.1
     unfold recursionErrs at hrec
-    have := List.filterMap_eq_nil_iff.1 hrec t hm
-    simp only [reaches, ht] at this
-    simp [hc] at this
+    have h1 := List.flatMap_eq_nil_iff.1 hrec t hm
+    have h2 := List.filterMap_eq_nil_iff.1 h1 c hc
+    have : (reaches (mkEnv p) t.name (reachFuel (mkEnv p)) [c.name] []).1 = true := by
+      unfold reachFuel
+      simp [reaches, hself]
+    simp [this] at h2
 
 /-- non-vacuity: an unknown task inside Loop > Condition > Failed > Parallel Loop is reported -/
 def exCall : Check.Call := { name := "nope", ins := [], outs := [], line := 8 }
